@@ -249,8 +249,35 @@ class Model:
                 self.generic_visit(n)
                 return ast.copy_location(ast.Attribute(value=n.value, attr="<self>", ctx=n.ctx), n) if n.attr == own else n
         import copy as _copy
-        dumped = [ast.dump(_Blank().visit(_copy.deepcopy(st)), annotate_fields=False, include_attributes=False) for st in body]
-        args = ast.dump(node.args, annotate_fields=False, include_attributes=False)
+        # parameters and locals by position of first appearance, annotations dropped: renaming them (and annotating) is house-keeping too
+        a = node.args
+        order: dict[str, str] = {}
+        for x in a.posonlyargs + a.args + ([a.vararg] if a.vararg else []) + a.kwonlyargs + ([a.kwarg] if a.kwarg else []):
+            order.setdefault(x.arg, f"_p{len(order)}")
+        for st in body:
+            for n in ast.walk(st):
+                if isinstance(n, ast.Name) and isinstance(n.ctx, ast.Store) and n.id != own:
+                    order.setdefault(n.id, f"_l{len(order)}")
+
+        class _Alpha(ast.NodeTransformer):
+            def visit_Name(self, n):  # noqa: N802
+                return ast.copy_location(ast.Name(id=order.get(n.id, n.id), ctx=n.ctx), n)
+
+            def visit_arg(self, n):  # noqa: N802
+                return ast.copy_location(ast.arg(arg=order.get(n.arg, n.arg), annotation=None), n)
+
+            def visit_AnnAssign(self, n):  # noqa: N802
+                self.generic_visit(n)
+                if n.value is None:
+                    return ast.copy_location(ast.Pass(), n)
+                return ast.copy_location(ast.Assign(targets=[n.target], value=n.value), n)
+
+            def visit_keyword(self, n):  # noqa: N802
+                self.generic_visit(n)
+                return n
+        body = [_Alpha().visit(_Blank().visit(_copy.deepcopy(st))) for st in body]
+        dumped = [ast.dump(st, annotate_fields=False, include_attributes=False) for st in body]
+        args = ast.dump(_Alpha().visit(_copy.deepcopy(node.args)), annotate_fields=False, include_attributes=False)
         decos = [ast.dump(d, annotate_fields=False, include_attributes=False) for d in node.decorator_list]
         return hashlib.sha256("\n".join([args] + decos + dumped).encode()).hexdigest()[:20]
 
@@ -286,6 +313,8 @@ class Model:
             new = current[cands[0]]
             self.functions[old] = new
             self.renamed[old] = cands[0]
+            # the analysis keeps calling it by the recorded name (primitives, call terms and reports all use qname); `renamed` keeps the new one
+            new.qname = old
             leaf = old.rpartition(".")[2]
             if new.cls is not None:
                 new.cls.methods.setdefault(leaf, new)
